@@ -188,7 +188,7 @@ def run(ctx):
         path = os.path.join(ctx.work, f'v{k}.xlsx')
         # ---- consistent file: empty report, whatever the outputs and the tolerance
         wbgen.write_xlsx_with_results(wb, good, path)
-        for tol in (None, 0.001, 1):
+        for tol in (None, 0.001, 1, 0):
             for outs in (None, [wb.nodes[rng.choice(formulas)]['addr']]):
                 comp = ExcelCompiler(filename=path)
                 case = dict(call='validate', workbook=desc, args=[outs, tol], perturbed=None)
@@ -214,6 +214,8 @@ def run(ctx):
                     perts = [('2tol', v + 2 * t + (1 if tol is None else 0)), ('plus1', v + 1 + t),
                              ('text', 'zz'), ('half-tol', v + t / 2)]
                 kind, v2 = rng.choice(perts[:3]) if rng.random() < 0.75 else perts[-1]
+                if rng.random() < 0.05:
+                    kind, v2 = 'formula-text', wb.nodes[p]['text']
                 altered = dict(good)
                 altered[p] = v2
                 wbgen.write_xlsx_with_results(wb, altered, path)
